@@ -170,6 +170,11 @@ type BatchOpts struct {
 	ReplayDir  string
 	KnownPath  string
 	RepoFP     string
+	// Directed lists directories of replay files (recorded findings) that the first worker of a
+	// world re-executes before the seeded search: the listed known findings, so that each is
+	// re-confirmed (and reported as KNOWN-FINDING) on every run, and the repaired ones, so that a
+	// repaired defect that returns is reported at once.
+	Directed []string
 }
 
 func RunBatch(w World, o BatchOpts) *BatchResult {
@@ -180,7 +185,10 @@ func RunBatch(w World, o BatchOpts) *BatchResult {
 	InstallKnown(o.KnownPath)
 	dig := map[uint64]struct{}{}
 	ntdig := map[uint64]struct{}{}
-	for i := o.From; i < o.To; i++ {
+	if o.From == 0 {
+		runDirected(w, o, known, res)
+	}
+	for i := o.From; i < o.To && len(res.Violations) == 0; i++ {
 		if time.Since(start) > o.Budget {
 			break
 		}
@@ -258,6 +266,53 @@ func RunBatch(w World, o BatchOpts) *BatchResult {
 	sort.Slice(res.NtDigests, func(i, j int) bool { return res.NtDigests[i] < res.NtDigests[j] })
 	res.WallS = time.Since(start).Seconds()
 	return res
+}
+
+// runDirected re-executes recorded findings of this world and property (replay mode: the step
+// list decides everything). A file whose violation is a listed known finding counts as a hit of
+// that finding; any other violation is reported with the file itself as its replay.
+func runDirected(w World, o BatchOpts, known []Known, res *BatchResult) {
+	for _, dir := range o.Directed {
+		files, _ := filepath.Glob(filepath.Join(dir, "*.json"))
+		sort.Strings(files)
+		for _, f := range files {
+			b, err := os.ReadFile(f)
+			if err != nil {
+				continue
+			}
+			var rf ReplayFile
+			if json.Unmarshal(b, &rf) != nil || rf.Case == nil || rf.Case.World != w.Name() || rf.Property != o.Prop {
+				continue
+			}
+			out, _ := Exec(w, rf.Case.Clone(), false, false)
+			if out.Infra != "" {
+				res.Stats["directed.stale"]++
+				continue
+			}
+			res.Stats["directed.replayed"]++
+			for k, v := range out.KnownSoft {
+				res.KnownHits[k] += v
+				res.KnownWhat[k] = KnownKeys[k]
+			}
+			v := out.Violation
+			if v == nil {
+				continue
+			}
+			if k := matchKnown(known, v); k != nil {
+				res.KnownHits[v.Key()]++
+				res.KnownWhat[v.Key()] = k.What
+				continue
+			}
+			o2, _ := Exec(w, rf.Case.Clone(), false, false)
+			if !sameViolation(o2.Violation, v) {
+				res.Infra = append(res.Infra, fmt.Sprintf("%s: violation %s did not reproduce on a second replay (nondeterminism in harness)", f, v.Key()))
+				return
+			}
+			res.Stats["directed.returned"]++
+			res.Violations = append(res.Violations, ReplayRef{Key: v.Key(), Detail: "recorded finding reproduces again: " + v.Detail, Path: f, Seed: rf.Case.Seed})
+			return
+		}
+	}
 }
 
 func trimCase(c *Case) *Case {
